@@ -271,6 +271,32 @@ theorem first_moment_bound_corners : ∀ dim ∈ Gen.cornerDims, ∃ r, Gen.corn
   refine ⟨r, hr, fun shape h k f U hs hl hv hF => ?_⟩
   exact first_moment_bound (euclid_isSeminormR dim) shape h (by omega) hv _ (by rw [hs]; exact hf) k f U hF
 
+/-- **Weak duality (certificate for the brute-force minimum).** A Kantorovich potential `p` (one value per cell) and a
+cell field `g` with `Σ_a g_{c,a}² ≤ 1` in every cell, coupled on every face by `½(g_lo + g_hi)·vol = −area·(p_hi − p_lo)`
+(the mean of `g` across the face is minus the difference quotient of `p`), give `Σ_c p_c·vol·f_c ≤ cost(U)` for EVERY
+mass-conserving flux `U` — Euclidean norm per quadrature point, any rule with the `CellRuleFacts` (all three L1 modes).
+Hence a reported distance that is the cost of a mass-conserving flux can never be below such a certified bound. -/
+theorem potential_lower_bound (shape : List Nat) (h : List Rat) (hv : 0 ≤ vol h) (t : List (List ℝ × ℝ))
+    (ht : CellRuleFacts t shape.length) (f U p : Nat → Rat) (g : Nat → Nat → Rat) (hF : Feasible shape h f U)
+    (hc : ∀ k, k < numFaces shape → vol h * (1 / 2) *
+        (g (conn shape k).1 (faceAxis shape k) + g (conn shape k).2 (faceAxis shape k)) =
+        -(area h (faceAxis shape k) * (p (conn shape k).2 - p (conn shape k).1)))
+    (hg : ∀ c, c < numCells shape → sumTo shape.length (fun a => g c a * g c a) ≤ 1) :
+    ((sumTo (numCells shape) (fun c => p c * (vol h * f c)) : Rat) : ℝ) ≤
+      costR (euclid shape.length) shape h t 1 U :=
+  potential_lower_bound_aux (euclid_isSeminormR shape.length) shape h hv t ht.nonneg ht.total ht.first f U p g hF hc
+    (fun c hc' v => euclid_polar shape.length (g c) (hg c hc') v)
+
+/-- the driver's exact certificate check is the hypothesis pair of `potential_lower_bound` -/
+theorem certOK_sound (shape : List Nat) (h : List Rat) (p : Nat → Rat) (g : Nat → Nat → Rat)
+    (hok : certOK shape h p g = true) :
+    (∀ k, k < numFaces shape → vol h * (1 / 2) *
+        (g (conn shape k).1 (faceAxis shape k) + g (conn shape k).2 (faceAxis shape k)) =
+        -(area h (faceAxis shape k) * (p (conn shape k).2 - p (conn shape k).1))) ∧
+    (∀ c, c < numCells shape → sumTo shape.length (fun a => g c a * g c a) ≤ 1) := by
+  simp only [certOK, Bool.and_eq_true, List.all_eq_true, List.mem_range, decide_eq_true_eq] at hok
+  exact hok
+
 /-! ### non-vacuity -/
 
 /-- the absolute value of one component is a seminorm (the Euclidean norm on single-component vectors) -/
@@ -285,6 +311,9 @@ example : thinB [4, 1] 0 = true ∧ feasibleB [4, 1] [1/2, 3] (fun c => [1, -3, 
     (uniqueFluxThin [4, 1] [1/2, 3] 0 (fun c => [1, -3, 0, 2].getD c 0)) = true := by decide +kernel
 example : thinB [1, 1, 3] 2 = true ∧ feasibleB [1, 1, 3] [2, 1/2, 1/4] (fun c => [1, 1, -2].getD c 0)
     (uniqueFluxThin [1, 1, 3] [2, 1/2, 1/4] 2 (fun c => [1, 1, -2].getD c 0)) = true := by decide +kernel
+/-- a concrete dual certificate on a 2×2 grid (unit voxels): `p = (0, 1, 1, 2)·(1/2)`, `g ≡ (-1/2, -1/2)` -/
+example : certOK [2, 2] [1, 1] (fun c => [0, 1/2, 1/2, 1].getD c 0) (fun _ a => if a < 2 then -1/2 else 0) = true := by
+  decide +kernel
 /-- the rule hypothesis of the first-moment bound is satisfiable by the code's own rules -/
 example : ∃ r, Gen.corners 2 = .ok r ∧ CellRuleFacts r.real 2 := corner_rule_facts 2 (by decide)
 example : ∃ r, Gen.rule 3 2 = .ok r ∧ CellRuleFacts r.toUnitCell.real 3 := gauss_cell_rule_facts (3, 2) (by decide)
